@@ -225,6 +225,54 @@ theorem C17_fn_lss_hmacs_all (mac : Mac) (crypt : Bytes → Bytes → Int → By
         subst h
         exact .cons he (ih os hes)
 
+/-! ## vls-frontend: the conversions between `Mutations` and the LSS records (`external_persist/lss.rs`) -/
+
+theorem verOf_itrunc (v : Nat) (hv : v ≤ 18446744073709551615) : verOf (Rs.itrunc 64 (Int.ofNat v)) = v := by
+  unfold verOf Rs.utruncI Rs.itrunc Rs.U64_MAX
+  simp only [Int.ofNat_eq_natCast, Int.reducePow, Nat.reduceSub]
+  have h1 : ((v : Int)) % 18446744073709551616 = (v : Int) := by omega
+  rw [h1]
+  split
+  · omega
+  · omega
+
+/-- `put`: `(k, (version, value)) ↦ (k, Value { version: version as i64, value })` — the record the LSS client
+    authenticates is, read back through `ofLss` (the `u64` with the same bit pattern), exactly the signer's record -/
+theorem C17_fn_frontend_put_conv (r : KVRec) (hv : r.ver ≤ 18446744073709551615) :
+    ofLss (Frontend.Client.put_map (toGen r)) = r := by
+  obtain ⟨k, v, x⟩ := r
+  simp only [Frontend.Client.put_map, toGen, ofLss]
+  rw [show Int.ofNat v = ((v : Nat) : Int) from rfl] at *
+  have := verOf_itrunc v hv
+  simp only [Int.ofNat_eq_natCast] at this
+  rw [this]
+
+/-- `get`: `(k, v) ↦ (k, (v.version as u64, v.value))` is `ofLss` in the record type of `Mutations` -/
+theorem C17_fn_frontend_get_conv (e : Hm.Bytes × Lss.Value) :
+    Frontend.Client.get_map e = toGen (ofLss e) := by
+  obtain ⟨k, v⟩ := e
+  simp [Frontend.Client.get_map, toGen, ofLss, verOf]
+
+/-- what the signer wrote comes back unchanged through both conversions (key, version and value) -/
+theorem C17_fn_frontend_roundtrip (r : KVRec) (hv : r.ver ≤ 18446744073709551615) :
+    Frontend.Client.get_map (Frontend.Client.put_map (toGen r)) = toGen r := by
+  rw [C17_fn_frontend_get_conv, C17_fn_frontend_put_conv r hv]
+
+/-- and the shared tag the LSS client computes over the converted list is the tag of the signer's list -/
+theorem C17_fn_frontend_tag (mac : Mac) (secret nonce : Bytes) (rs : List KVRec)
+    (hv : ∀ r ∈ rs, r.ver ≤ 18446744073709551615) :
+    Lss.compute_shared_hmac mac secret nonce ((rs.map toGen).map Frontend.Client.put_map)
+      = Core.compute_shared_hmac mac secret nonce (rs.map toGen) := by
+  rw [C17_fn_lss_compute_shared_hmac, C17_fn_core_compute_shared_hmac]
+  congr 1
+  induction rs with
+  | nil => rfl
+  | cons r rs ih =>
+    simp only [List.map_cons]
+    rw [C17_fn_frontend_put_conv r (hv r (by simp))]
+    congr 1
+    exact ih (fun x hx => hv x (by simp [hx]))
+
 /-- non-vacuity: a one-record list and a stored value -/
 example : Core.compute_shared_hmac (fun k m => k ++ m) [1] [2] ([⟨[3], 4, [5]⟩].map toGen)
     = [1, 1, 2, 3, 0, 0, 0, 0, 0, 0, 0, 4, 5] := by decide
